@@ -10,7 +10,7 @@ import refmodel as R
 RULE = (
     "case = one object family at one size: EncodedSequence, StripedSequence, CountMatrix, WeightMatrix, ScoringMatrix, ScoreDistribution, StripedScores "
     "(DNA and protein; widths 0..40 incl. widths below the alphabet size; sequence lengths from the boundary set up to 3000 incl. 0 and L < M; "
-    "before and after calculate / scan added look-ahead rows; copies of scored sequences). Sequence protocol: len(obj) is the logical length, obj[i] for every "
+    "before and after calculate / scan added look-ahead rows; copies of scored sequences, which are scored again themselves; motifs exactly as long as the sequence). Sequence protocol: len(obj) is the logical length, obj[i] for every "
     "i in [-len-2, len+1] plus +-2^62 returns the model's element for valid indices and raises IndexError otherwise (never a panic). Buffer protocol: "
     "memoryview(obj) ndim / shape / strides / format / itemsize are compared with the logical layout and EVERY element read through the view (via shape and strides "
     "on the raw bytes) must be the logical element; the extent shape x strides must lie inside the buffer reported by a fresh PyObject_GetBuffer; a view taken "
@@ -21,7 +21,7 @@ REQUIRED = [
     "class.EncodedSequence", "class.StripedSequence", "class.CountMatrix", "class.WeightMatrix", "class.ScoringMatrix",
     "class.ScoreDistribution", "class.StripedScores", "alphabet.protein", "index.negative", "index.out_of_range",
     "index.huge", "view.elements_checked", "view.empty_object", "view.rows<K", "view.after_calculate",
-    "view.copy_of_scored", "view.taken_before_reuse", "view.realloc_expected", "scores.L<M",
+    "view.copy_of_scored", "view.copy_scored_again", "scores.L=M", "view.taken_before_reuse", "view.realloc_expected", "scores.L<M",
 ]
 
 lightmotif = None
@@ -190,6 +190,10 @@ def family_sequences(rep, case, rng):
     rep.cover("view.taken_before_reuse")
     # reuse for scoring with one or several motifs: look-ahead rows are added, storage may move
     widths = [rng.choice([1, 2, 5, 17, 33, 34, 40, 64])] + ([rng.randint(2, 70)] if rng.random() < 0.5 else [])
+    if 1 <= length <= 70 and rng.random() < 0.7:
+        widths.append(length)  # the motif exactly as long as the sequence: one position
+        rng.shuffle(widths)
+    last = None
     for w in widths:
         seqs = [rand_seq(rng, alphabet, w, wild=0.0) for _ in range(4)]
         pssm = lightmotif.create(seqs, protein=protein).counts.normalize(0.5).log_odds()
@@ -223,8 +227,13 @@ def family_sequences(rep, case, rng):
             rep.cover("scores.L<M")
         prow = [list(pssm[i]) for i in range(len(pssm))]
         exact = [e[0] for e in R.scores(prow, idx)] if length >= w else []
+        if length == w:
+            rep.cover("scores.L=M")
         got_ok, got = call(rep, case, "list(scores)", lambda: [sc[i] for i in range(n)], wit2)
+        if not got_ok:
+            rep.violate("c18.scores.index", case, "StripedScores: reading scores[0..%d) (L-M+1 positions) raised %r; len(scores) = %r" % (n, got, len(sc)), wit2)
         if got_ok:
+            last = (pssm, w, got)
             model = got  # the values themselves are C17's business; here: index <-> view consistency
             for i in range(n):
                 if exact[i] == R.NEG_INF and got[i] != R.NEG_INF:
@@ -246,6 +255,29 @@ def family_sequences(rep, case, rng):
         import copy as _copy
 
         check_view(rep, case, "copy.copy(StripedSequence) after scoring", _copy.copy(st), cell, "B", wit, shape=(32, rows))
+        # ... and behaves like the original when it is scored itself (a copy must not keep
+        # book-keeping of look-ahead rows it did not copy, nor lose them)
+        if last is not None:
+            pssm, w, got = last
+            for label, c2 in (("copy()", cp), ("copy.copy()", _copy.copy(st))):
+                wit3 = dict(wit, motif_width=w, copy=label)
+                ok2, sc2 = call(rep, case, "calculate(copy)", lambda: pssm.calculate(c2), wit3)
+                if not ok2:
+                    rep.violate("c18.copy.calculate", case, "calculate on a %s of a scored sequence raised %r" % (label, sc2), wit3)
+                    continue
+                ok3, got2 = call(rep, case, "list(scores of copy)", lambda: [sc2[i] for i in range(len(got))], wit3)
+                if not ok3 or len(sc2) != len(got) or any(not (a == b) for a, b in zip(got2, got)):
+                    rep.violate("c18.copy.scores", case, "scores of a %s of a scored sequence differ from the scores of the original (len %r vs %d)" % (label, len(sc2), len(got)), wit3)
+                    continue
+                srows2 = rows if len(got) > 0 else 0
+
+                def scell2(c, r, model=got, srows=srows2):
+                    p_ = c * srows + r
+                    return model[p_] if p_ < len(model) else None
+
+                check_view_scores(rep, case, sc2, scell2, srows2, wit3)
+                check_view(rep, case, "StripedSequence.%s after scoring the copy" % label, c2, cell, "B", wit3, shape=(32, rows))
+                rep.cover("view.copy_scored_again")
     if length > 0:
         rep.nontrivial("seq", protein, text, tuple(widths))
     rep.sample(dict(case=case, family="sequences", **wit, widths=widths))
@@ -372,7 +404,16 @@ def main():
                 family_sequences(rep, case, rng)
             else:
                 family_matrices(rep, case, rng)
-        except Exception as e:
+        except BaseException as e:
+            if type(e).__name__ in ("KeyboardInterrupt", "SystemExit"):
+                raise
+            if not isinstance(e, Exception):
+                # a PanicException (derives from BaseException) that escaped a library call the monitor
+                # makes outside its guard: still the library's panic, never a monitor error
+                import traceback
+
+                rep.violate("c18.panic:unguarded_call", case, "%s raised by a library call: %s | %s" % (type(e).__name__, e, traceback.format_exc()[-400:].replace("\n", " | ")), None)
+                continue
             import traceback
 
             rep.errors.append("case %d: monitor error %s: %s" % (case, type(e).__name__, traceback.format_exc()[-700:]))
